@@ -39,6 +39,15 @@ theorem getLsbD_lit_pow {w : Nat} (n v : Nat) (hv : v = 2^n) (hn : n < w) (i : N
 @[simp] theorem gl_sign64 (i : Nat) : (9223372036854775808#64).getLsbD i = decide (i = 63) :=
   getLsbD_lit_pow 63 _ (by decide) (by decide) i
 
+@[simp] theorem ge_implicit64 (i : Nat) (h : i < 64) : (4503599627370496#64)[i] = decide (i = 52) :=
+  getElem_lit_pow 52 _ (by decide) (by decide) i h
+@[simp] theorem gl_mant64 (i : Nat) : (4503599627370495#64).getLsbD i = decide (i < 52) :=
+  getLsbD_lit_mask 52 _ (by decide) (by decide) i
+@[simp] theorem gl_exp64 (i : Nat) : (2047#64).getLsbD i = decide (i < 11) :=
+  getLsbD_lit_mask 11 _ (by decide) (by decide) i
+@[simp] theorem gl_implicit64 (i : Nat) : (4503599627370496#64).getLsbD i = decide (i = 52) :=
+  getLsbD_lit_pow 52 _ (by decide) (by decide) i
+
 theorem neg_sign64 (f : BitVec 64) :
     (f ^^^ 9223372036854775808#64) &&& 9223372036854775808#64 = (f &&& 9223372036854775808#64) ^^^ 9223372036854775808#64 := by
   ext i hi; simp; grind
